@@ -2,7 +2,7 @@
 SHM-SENTINEL, SHM-COUPLE, SHM-LEN, SHM-SIBLING (C05)."""
 import re
 
-from vlib.flow import Expr, Tracer, chain_calls, chain_calls_ip, edge_label, expr_str, expr_strip_blocks, path_summaries
+from vlib.flow import ref_place, Expr, Tracer, chain_calls, chain_calls_ip, edge_label, expr_str, expr_strip_blocks, path_summaries
 from vlib.mir import callee_name, op_const, op_local, op_place, strip_generics
 from rules.send import _root_local, first_fragment_fn, followup_fn, send_fn, _position_local
 from rules import fd as _fdrules
@@ -509,7 +509,10 @@ def _iov0_type(f, R, cfg, side):
         return None
     base_roots = tr.roots_of_operand(st0["rv"]["a"][0])
     ty = None
-    for r in base_roots:
+    rp = ref_place(f, st0["rv"]["a"][0])
+    if rp is not None and not rp[1] and not f.local_ty(rp[0]).startswith("*") and not (1 <= rp[0] <= f.argc and f.local_ty(rp[0]).startswith("&")):
+        ty = f.local_ty(rp[0])          # the scalar whose address is taken (through `as` casts, .cast(), addr_of_mut!)
+    for r in (base_roots if ty is None else ()):
         if r.kind == "param" and not r.path:
             ty = f.local_ty(r.id)
         elif r.kind == "const" and len(base_roots) >= 1:
